@@ -71,6 +71,10 @@ def lifecycle_set_follows(ck, C):
                 # slot tokens never carry a sub-id (vacant_entry builds them with TokenInner::new / increment_version)
                 aps = b2.resolve(cs.args[0])
                 ok = bool(aps) and all(r[0] == "call" and ".token" in p and (b2.call_at(r[1]).path or "").startswith("list::SourceList") for r, p in aps)
+            if not ok:
+                # rebuilt from the `inner` of a RegistrationToken the function was given (sub-id-free by induction)
+                aps = b2.resolve(cs.args[0])
+                ok = bool(aps) and all(r[0] == "arg" and p and p[-1] == ".inner" and "RegistrationToken" in f.types[f.peel_refs(b2.local_ty(r[1]))]["s"] for r, p in aps)
             ck.verdict(ok, C, "T6-provenance", b2, "RegistrationToken::new(sub-id-free)", "registration tokens are built from a token whose sub-id was cleared", "a RegistrationToken is built from a token that still carries a sub-id: the lifecycle set compares whole tokens, so an entry registered under sub-id 0 is not removed (a disabled/removed multi-token source keeps receiving its hooks; unreachable!() after removal)", site=b2.where(cs.bb))
     # adds after success must be on the success edge only (T3, edge specific)
     dunreg = ck.body(C, "<RefCell<DispatcherInner> as EventDispatcher>::unregister")
